@@ -99,7 +99,7 @@ def extract(b, prog):
 def _one(args):
     seed, i = args
     rng = random.Random(seed * 7 + i)
-    fam = rng.choice(["flat", "nested", "nested", "fi", "fi", "bankrupt", "flows"])
+    fam = rng.choice(["flat", "nested", "nested", "fi", "fi", "bankrupt", "flows", "replay"])
     prog = btgen.prog_by_family(seed, i, fam)
     if rng.random() < 0.5:
         # user algos may look at the reports while the backtest runs
